@@ -77,7 +77,7 @@ def label_list(draw, n_in: int, n_g: int, styles=('plain', 'digits', 'mixed'), e
     return style, labels
 
 
-def _arity_for(draw, typ: str, max_arity: int, const_operands=(0,), avail: int = 1) -> int:
+def _arity_for(draw, typ: str, max_arity: int, const_operands=(0,), avail: int = 1, wide_arity: int = 0) -> int:
     if typ in CONST:
         if avail == 0 or len(const_operands) == 1 and const_operands[0] == 0:
             return 0
@@ -86,9 +86,11 @@ def _arity_for(draw, typ: str, max_arity: int, const_operands=(0,), avail: int =
         return 1
     if typ in FIXED:
         return 2
-    # n-ary: mostly 2, sometimes more
+    # n-ary: mostly 2, sometimes more, now and then very many (operands then repeat)
     if max_arity <= 2:
         return 2
+    if wide_arity > max_arity and draw(st.integers(0, 6)) == 0:
+        return draw(st.integers(max_arity + 1, wide_arity))
     return draw(st.sampled_from([a for a in (2, 2, 2, 3, 3, 4, 5) if a <= max_arity]))
 
 
@@ -111,6 +113,7 @@ def netlists(
     const_operands=(0,),  # admissible operand counts of ALWAYS_TRUE / ALWAYS_FALSE gates
     sinks_as_outputs: bool = False,  # additionally list every gate nobody uses as an output (no dead logic)
     empty_label: bool = True,  # the empty string may be a label (not where labels have to be identifiers of a text format)
+    wide_arity: int = 0,  # if > max_arity: one n-ary gate in seven has max_arity+1 .. wide_arity operands
 ):
     """Well-formed DAG netlist; gates listed inputs first then topologically."""
     types = list(types) if types is not None else ALL_TYPES
@@ -144,7 +147,7 @@ def netlists(
                     del ops[draw(st.integers(0, len(ops) - 1))]
                 gates.append([labels[k], src[1], ops])
                 continue
-        ar = _arity_for(draw, typ, max_arity, const_operands, avail)
+        ar = _arity_for(draw, typ, max_arity, const_operands, avail, wide_arity)
         ops = []
         for _ in range(ar):
             if recency_bias and avail > 4 and draw(st.booleans()):
@@ -194,6 +197,9 @@ def routes(draw, nl: dict, allow_bench: bool = True):
     if sc and n:
         route['scratch'] = sc
         route['scratch_seed'] = draw(st.integers(0, 40))
+    if kind != 'bench' and n and draw(st.integers(0, 3)) == 0:
+        # read-only public calls in the middle of the construction (positions among the gates, taken modulo)
+        route['observe'] = [draw(st.integers(0, 60)) for _ in range(draw(st.integers(1, 2)))]
     ob = draw(st.sampled_from([None, None, None, None, 'copy', 'deepcopy', 'pickle', 'composed']))
     if ob:
         route['obtain'] = ob
@@ -209,6 +215,8 @@ def free_routes(draw, allow_bench: bool = True):
         route['moves'] = [draw(st.integers(0, 60)) for _ in range(draw(st.integers(1, 5)))]
     if kind == 'bench':
         route['keys'] = [draw(st.integers(0, 7)) for _ in range(draw(st.integers(3, 12)))]
+    elif draw(st.integers(0, 3)) == 0:
+        route['observe'] = [draw(st.integers(0, 60)) for _ in range(draw(st.integers(1, 2)))]
     return route
 
 
@@ -221,6 +229,8 @@ def classify(nl: dict) -> set[str]:
     for lab, t, ops in nl['gates']:
         if t in NARY and len(ops) >= 3:
             cls.add('nary>=3')
+        if t in NARY and len(ops) >= 9:
+            cls.add('nary>=9')
         if len(set(ops)) < len(ops):
             cls.add('dup_operand')
         if t in CONST:
